@@ -317,6 +317,8 @@ type vtSpec struct {
 	MaxStates int
 	Finish    bool
 	Deadline  time.Time
+	// DeathFinding classifies an execution whose bubble could not end (worker death); may be nil
+	DeathFinding func(hist []string, stderr string) string
 }
 
 type vtStats struct {
@@ -433,6 +435,9 @@ func vtSearch(c *runCtx, p *vtPool, s vtSpec) vtStats {
 			}
 			if o.death != nil {
 				finding, msg := vtDeathFinding(o.death)
+				if s.DeathFinding != nil {
+					finding = s.DeathFinding(append(append([]string{}, o.n.hist...), strings.TrimPrefix(o.death.phase, "succ ")), o.death.stderr)
+				}
 				c.violation(finding, fmt.Sprintf("[%s] history %v, phase %q: %s", s.Name, o.n.hist, o.death.phase, msg),
 					map[string]any{"engine": "vt", "model": s.Model, "cfg": json.RawMessage(cfgRaw), "hist": o.n.hist, "phase": o.death.phase, "stderr": o.death.stderr})
 
